@@ -396,6 +396,12 @@ def _iter_mentions(fi, it, word):
     return False
 
 
+def _secretish(name):
+    """An attribute name that, by convention, holds key material."""
+    a = name.lower()
+    return 'secret' in a or 'password' in a or a in ('key', 'passwd') or a.endswith('_key')
+
+
 # ------------------------------------------------------------------------------------------ R18.a: the taint engine
 class _Site(object):
     """One place where resource values are bound together with their names: ``for <key>, <val> in <resources>.items()``
@@ -469,6 +475,12 @@ class _Taint(object):
             if any(t[0] == 'map' and t[1] == 'resources' for t in self.tags(e.value, env)):
                 return {('val', e.slice.id, self._lookup_site(self._cur_fi, e.slice.id, e))}
             return set()
+        if isinstance(e, ast.BoolOp):
+            # ``<mapping> or {}``: whichever operand it is, the result is (at most) the mapping
+            out = set()
+            for v in e.values:
+                out |= set(t for t in self.tags(v, env) if t[0] != 'val')
+            return out
         if isinstance(e, ast.Call):
             f = e.func
             if isinstance(f, ast.Attribute) and f.attr == 'get_defaults_dict':
@@ -519,7 +531,7 @@ class _Taint(object):
         if not fields:
             return None
         self._classes[ci.key] = ci
-        return ('obj', ci.key, fields)
+        return ('obj', ci.key, fields, tuple(sorted(set(f for f, _ in fields))), 'held')
 
     def _fields_stored(self, init, penv):
         me = (init.params() or [None])[0]
@@ -614,8 +626,19 @@ class _Taint(object):
         ci = self._classes.get(tag[1])
         held = sorted(set(f for f, _ in tag[2]))
         kind = None
+        sensitive = tag[3]
         if isinstance(par, ast.Attribute) and par.value is n:
-            kind = 'method call / field access on the object (the fields %s are judged where they are read)' % held
+            if par.attr == '__dict__':
+                if not sensitive:
+                    kind = 'instance dictionary of an object without sensitive fields'
+            else:
+                kind = 'method call / field access on the object (the fields %s are judged where they are read)' % held
+                if tag[4] == 'text':
+                    return          # (not worth an obligation of its own)
+        elif isinstance(par, ast.Call) and isinstance(par.func, ast.Name) and par.func.id in ('vars', 'dir') and par.func.id not in _local_names(fi) and \
+                par.args and par.args[0] is n:
+            if par.func.id == 'dir' or not sensitive:
+                kind = '%s() of an object%s' % (par.func.id, '' if par.func.id == 'dir' else ' without sensitive fields')
         elif isinstance(par, ast.Call) and isinstance(par.func, ast.Name) and par.func.id in ('getattr', 'hasattr', 'isinstance', 'super', 'id', 'type') and \
                 par.func.id not in _local_names(fi) and par.args and (par.args[0] is n or par.func.id == 'super'):
             if par.func.id != 'getattr':
@@ -623,16 +646,25 @@ class _Taint(object):
             elif len(par.args) >= 2:
                 names = self._const_strings(fi, par.args[1])
                 if names and ci is not None and isinstance(gp, ast.Call) and gp.func is par and \
-                        all(nm not in held and self.repo.find_method(ci, nm) is not None for nm in names):
+                        all(nm not in sensitive and self.repo.find_method(ci, nm) is not None for nm in names):
                     kind = 'call of one of the methods %s of its class (judged there)' % sorted(names)
+                elif names and all(nm not in sensitive and nm != '__dict__' and not _secretish(nm) for nm in names):
+                    kind = 'read of one of the fields %s' % sorted(names)
+                elif not names and not sensitive:
+                    kind = 'attribute chosen at run time of an object without sensitive fields'
         elif isinstance(par, ast.Compare) and all(isinstance(o, (ast.Is, ast.IsNot)) for o in par.ops):
             kind = 'identity test'
         if kind is None and is_aliased(mod, n):
             kind = 'local alias (judged where it is used)'
         if kind is None and self._transfer(fi, n, tag, pending):
             kind = 'argument of a helper of the tree (judged there)'
+        if kind is None and tag[4] == 'text' and not (isinstance(par, ast.Call) and isinstance(par.func, ast.Name) and par.func.id in ('vars', 'getattr')) \
+                and not isinstance(par, ast.Attribute):
+            kind = 'the object itself is passed on (its own textual representation is judged where it is defined)'
         kinds = sorted(set('resource' if t[1] == 'resources' or t[0] == 'val' else 'parameter default' for _, t in tag[2]))
         self._read(fi, n, kind, None if kind else
+                   ('%s prints the instance dictionary / an attribute chosen at run time of an object with the sensitive fields %s (%s)'
+                    % (fi.qualname, list(sensitive), short(par if isinstance(par, ast.AST) else n))) if tag[4] == 'text' else
                    '%s lets an object that holds %s *values* in %s escape (%s): its fields can no longer be followed'
                    % (fi.qualname, ' / '.join(kinds), held, short(par if isinstance(par, ast.AST) else n)))
 
@@ -1050,6 +1082,11 @@ class _Taint(object):
                 kind = 'emptiness test'
             elif isinstance(par, ast.UnaryOp) and isinstance(par.op, ast.Not):
                 kind = 'emptiness test'
+            elif isinstance(par, ast.BoolOp):
+                kind = 'operand of and / or (the result is judged where it is used)'
+            elif isinstance(par, ast.Call) and isinstance(par.func, ast.Attribute) and par.func.attr == 'join' and len(par.args) == 1 and \
+                    par.args[0] is n and not par.keywords and _fold_str(self.repo, fi, par.func.value) is not None:
+                kind = 'join() over the names'
             elif isinstance(par, ast.Subscript) and par.value is n and isinstance(par.slice, ast.Name) and tag[1] == 'resources' and \
                     isinstance(par.ctx, ast.Load) and par.slice.id in _local_names(fi):
                 kind = 'value looked up by name (judged per use of the value)'
@@ -1248,6 +1285,39 @@ def _toplevel_lambdas(mod):
     return out
 
 
+def _report_taint(rep, rule, tn, note=''):
+    """One obligation per occurrence of a sensitive mapping, three per place where names and values are bound together."""
+    # every occurrence of a sensitive mapping (resources, endpoint parameter defaults): names only
+    for i, (fi, n, kind, detail) in enumerate(tn.reads):
+        rep.check(rule, fkey(fi, n) + '#' + str(i), kind is not None,
+                  'read of %s is %s' % (short(n, 50), kind) if kind else detail + note, fi.mod, n)
+    # every iteration over (name, value) pairs of a resources mapping
+    per_fn = {}
+    for site in tn.sites:
+        fi = site.fi
+        i = per_fn[fi.key] = per_fn.get(fi.key, -1) + 1
+        sfx = '' if i == 0 else '#%d' % i
+        kv, vv = site.kname, site.vname
+        rb = site.rebinds
+        rep.check(rule, fkey(fi, 'key variable intact') + sfx, not rb,
+                  "the 'secret' test looks at the resource name itself" if not rb else
+                  'the key variable %s is re-bound (truncated / transformed) in %s: the "secret" decision is made on '
+                  'something else than the resource name' % (kv, rb[0][0].qualname), fi.mod, rb[0][1] if rb else site.where)
+        ok = not site.bad and bool(site.markers) and bool(site.uses)
+        rep.check(rule, fkey(fi, 'items() loop') + sfx, ok,
+                  "the value variable %s is evaluated only where ('secret' in %s) is false (%d uses); the other branch yields the constant %r"
+                  % (vv, kv, len(site.uses), site.markers[0][2] if site.markers else None) if ok else
+                  'a resource value is used without the "secret" test being false (%d unguarded uses%s) or no redaction marker is produced'
+                  % (len(site.bad), ', first in %s: %s' % (site.bad[0][0].qualname, short(fi.mod.parents.get(site.bad[0][1]), 60)) if site.bad else ''),
+                  fi.mod, site.bad[0][1] if site.bad else site.where)
+        ok2 = site.shown and not site.bad
+        rep.check(rule, fkey(fi, 'output value') + sfx, ok2,
+                  'the listed value is the branch result (marker %r for secret names), never the raw value'
+                  % (site.markers[0][2] if site.markers else None) if ok2 else
+                  ('the raw resource value is put into the output' if site.bad else
+                   'the redaction marker does not reach the listing'), fi.mod, site.bad[0][1] if site.bad else site.where)
+
+
 def _r18a(rep, repo, meta):
     tn = _Taint(repo, meta)
     for fi in list(meta.functions.values()) + _toplevel_lambdas(meta):
@@ -1266,7 +1336,7 @@ def _r18a(rep, repo, meta):
             break
         for ck, flat in todo:
             for m, me in tn.methods_with_self(tn._classes[ck]):
-                tn.scan(m, {me: {('obj', ck, flat)}})
+                tn.scan(m, {me: {('obj', ck, flat, tuple(sorted(set(f for f, _ in flat))), 'held')}})
     n_res = sum(1 for fi, n, _, _ in tn.reads if isinstance(n, ast.Attribute) and n.attr == 'resources')
     if n_res < 3:
         raise AnalysisError('meta.py: only %d reads of .resources found (floor 3)' % n_res)
@@ -1275,35 +1345,7 @@ def _r18a(rep, repo, meta):
     if stray:
         raise AnalysisError('meta.py: %d read(s) of a sensitive mapping outside the analysed function bodies (first: line %s, %s)'
                             % (len(stray), getattr(stray[0], 'lineno', '?'), short(stray[0], 60)))
-    # every occurrence of a sensitive mapping (resources, endpoint parameter defaults): names only
-    for i, (fi, n, kind, detail) in enumerate(tn.reads):
-        rep.check('R18.a', fkey(fi, n) + '#' + str(i), kind is not None,
-                  'read of %s is %s' % (short(n, 50), kind) if kind else detail, meta, n)
-    # every iteration over (name, value) pairs of a resources mapping
-    per_fn = {}
-    for site in tn.sites:
-        fi = site.fi
-        i = per_fn[fi.key] = per_fn.get(fi.key, -1) + 1
-        sfx = '' if i == 0 else '#%d' % i
-        kv, vv = site.kname, site.vname
-        rb = site.rebinds
-        rep.check('R18.a', fkey(fi, 'key variable intact') + sfx, not rb,
-                  "the 'secret' test looks at the resource name itself" if not rb else
-                  'the key variable %s is re-bound (truncated / transformed) in %s: the "secret" decision is made on '
-                  'something else than the resource name' % (kv, rb[0][0].qualname), meta, rb[0][1] if rb else site.where)
-        ok = not site.bad and bool(site.markers) and bool(site.uses)
-        rep.check('R18.a', fkey(fi, 'items() loop') + sfx, ok,
-                  "the value variable %s is evaluated only where ('secret' in %s) is false (%d uses); the other branch yields the constant %r"
-                  % (vv, kv, len(site.uses), site.markers[0][2] if site.markers else None) if ok else
-                  'a resource value is used without the "secret" test being false (%d unguarded uses%s) or no redaction marker is produced'
-                  % (len(site.bad), ', first in %s: %s' % (site.bad[0][0].qualname, short(fi.mod.parents.get(site.bad[0][1]), 60)) if site.bad else ''),
-                  meta, site.bad[0][1] if site.bad else site.where)
-        ok2 = site.shown and not site.bad
-        rep.check('R18.a', fkey(fi, 'output value') + sfx, ok2,
-                  'the listed value is the branch result (marker %r for secret names), never the raw value'
-                  % (site.markers[0][2] if site.markers else None) if ok2 else
-                  ('the raw resource value is put into the output' if site.bad else
-                   'the redaction marker does not reach the listing'), meta, site.bad[0][1] if site.bad else site.where)
+    _report_taint(rep, 'R18.a', tn)
     if not tn.sites and all(k is not None for _, _, k, _ in tn.reads):
         raise AnalysisError('meta.py: no iteration over the (name, value) pairs of a .resources mapping found (the resource listing '
                             'could not be located)')
@@ -1483,6 +1525,214 @@ def _object_names(repo, ctx):
         if not changed:
             break
     return objs
+
+
+# ------------------------------------------------------------------------------------------ R18.e
+TEXT_METHODS = ('__repr__', '__str__', '__format__', '__unicode__')
+GENERATED_REPR = {'attr.s', 'attr.attrs', 'attr.attributes', 'attr.define', 'attr.frozen', 'attr.mutable', 'attrs.define', 'attrs.frozen',
+                  'attrs.mutable', 'dataclasses.dataclass'}
+FIELD_MAKERS = {'attr.ib', 'attr.attrib', 'attr.attr', 'attr.field', 'attrs.field', 'dataclasses.field'}
+MAP_TAG = ('map', 'resources', False)
+
+
+def _resourceish(name):
+    """A name that, by the convention of the framework, denotes a resources mapping."""
+    return name == 'resources' or name.endswith('_resources') or name.startswith('resources_')
+
+
+def _imported_name(mod, e):
+    """Dotted name of a decorator / callee expression with the module's import aliases resolved (``attr.s``, ``dataclasses.dataclass``)."""
+    if isinstance(e, ast.Call):
+        e = e.func
+    if isinstance(e, ast.Name):
+        imp = mod.imports.get(e.id)
+        if imp is not None:
+            return imp[0] if imp[1] is None else '%s.%s' % imp
+        return e.id
+    if isinstance(e, ast.Attribute) and isinstance(e.value, ast.Name):
+        imp = mod.imports.get(e.value.id)
+        if imp is not None and imp[1] is None:
+            return '%s.%s' % (imp[0], e.attr)
+        if imp is not None:
+            return '%s.%s.%s' % (imp[0], imp[1], e.attr)
+    return norm(e)
+
+
+def _generated_repr_fields(ci):
+    """The fields a class decorated with attrs / dataclass prints in its generated ``__repr__`` (None: no generated repr)."""
+    deco = None
+    for d in ci.node.decorator_list:
+        if _imported_name(ci.mod, d) in GENERATED_REPR:
+            deco = d
+    if deco is None:
+        return None
+    if isinstance(deco, ast.Call) and any(k.arg == 'repr' and isinstance(k.value, ast.Constant) and k.value.value is False for k in deco.keywords):
+        return None
+    out = []
+    for st in ci.node.body:
+        if isinstance(st, ast.Assign) and len(st.targets) == 1 and isinstance(st.targets[0], ast.Name):
+            name, value, annotated = st.targets[0].id, st.value, False
+        elif isinstance(st, ast.AnnAssign) and isinstance(st.target, ast.Name):
+            name, value, annotated = st.target.id, st.value, True
+            if 'ClassVar' in norm(st.annotation):
+                continue
+        else:
+            continue
+        maker = isinstance(value, ast.Call) and _imported_name(ci.mod, value) in FIELD_MAKERS
+        if not (maker or annotated):
+            continue
+        if maker and any(k.arg == 'repr' and isinstance(k.value, ast.Constant) and k.value.value is False for k in value.keywords):
+            continue
+        out.append((name, st))
+    return out
+
+
+class _Families(object):
+    """For each class of the tree: the classes an instance may belong to as far as the tree tells (bases and subclasses),
+    the instance fields they store, and which of these hold a resources mapping."""
+
+    def __init__(self, repo, tn):
+        self.repo, self.tn = repo, tn
+        self.classes = [c for m in repo.all_internal_modules() for c in m.classes.values()]
+        self._mro = dict((c.key, [x for x in repo.mro(c) if not isinstance(x, str) and not x.mod.external]) for c in self.classes)
+        self._fam, self._fields = {}, {}
+
+    def family(self, ci):
+        f = self._fam.get(ci.key)
+        if f is None:
+            f = list(self._mro.get(ci.key, [ci]))
+            f += [c for c in self.classes if c is not ci and any(x is ci for x in self._mro[c.key])]
+            self._fam[ci.key] = f
+        return f
+
+    def fields(self, ci):
+        """(all instance fields, {field: tags} of the fields a resources mapping is stored in)."""
+        r = self._fields.get(ci.key)
+        if r is not None:
+            return r
+        names, derived = set(), {}
+        for c in self.family(ci):
+            for nm, _ in (_generated_repr_fields(c) or []):
+                names.add(nm)
+            for m in c.methods.values():
+                me = (m.params() or [None])[0]
+                if me is None:
+                    continue
+                penv = dict((x, {MAP_TAG}) for x in _local_names(m) if _resourceish(x))
+                for n in _walk(m):
+                    if isinstance(n, ast.Attribute) and isinstance(n.ctx, ast.Store) and isinstance(n.value, ast.Name) and n.value.id == me:
+                        names.add(n.attr)
+                for f, t in self.tn._fields_stored(m, penv):
+                    if t[0] in ('map', 'items', 'pair', 'enum'):
+                        derived.setdefault(f, set()).add(t)
+        r = self._fields[ci.key] = (names, derived)
+        return r
+
+    def text_tag(self, ci):
+        names, derived = self.fields(ci)
+        sens = sorted(f for f in names if _resourceish(f) or _secretish(f) or f in derived)
+        flat = tuple(sorted(((f, t) for f, ts in derived.items() for t in ts), key=lambda x: (x[0], x[1][0], str(x[1][1]))))
+        self.tn._classes[ci.key] = ci
+        return ('obj', ci.key, flat, tuple(sens), 'text')
+
+    def self_closure(self, ci, root):
+        """``root`` and the methods of the family it calls on its own object (transitively)."""
+        out, todo = [], [root]
+        fam = self.family(ci)
+        while todo:
+            m = todo.pop()
+            if any(m is x for x in out) or any(norm(d) in ('staticmethod', 'classmethod') for d in m.node.decorator_list):
+                continue
+            out.append(m)
+            me = (m.params() or [None])[0]
+            for n in _walk(m):
+                f = n.func if isinstance(n, ast.Call) else (n if isinstance(n, ast.Attribute) and isinstance(n.ctx, ast.Load) else None)
+                if isinstance(f, ast.Attribute) and isinstance(f.value, ast.Name) and f.value.id == me:
+                    for c in fam:
+                        t = c.methods.get(f.attr)
+                        if t is not None and (isinstance(n, ast.Call) or any(norm(d) in ('property', 'cached_property') for d in t.node.decorator_list)):
+                            todo.append(t)
+        return out
+
+
+def _r18e(rep, repo, meta):
+    """No textual representation of an object of the tree is secret-bearing.
+
+    The meta views print host objects they know nothing about -- ``repr()`` of resource values, middlewares, endpoints
+    (the repr of a bound method contains the repr of its instance), exceptions -- so whatever a ``__repr__`` / ``__str__`` /
+    ``__format__`` of a class of the tree (hand-written or generated by attrs / dataclass) prints can end up on the
+    page: it must not print the values of a resources mapping (the field ``resources``, any field such a mapping was
+    stored in), a field named like key material, or the whole instance dictionary of an object that has such fields.
+    The same holds for the methods the views call on an application / route / middleware object, and for the views
+    themselves reading ``vars()`` / ``__dict__`` / a run-time-chosen attribute of such an object."""
+    tn = _Taint(repo, meta)
+    fams = _Families(repo, tn)
+    mwbase = repo.mod('clastic.middleware.core').cls('Middleware')
+    n_text = 0
+    judged = set()
+
+    def judge(c, r, why):
+        if r.key in judged:
+            return
+        judged.add(r.key)
+        tag = fams.text_tag(c)
+        for m in fams.self_closure(c, r):
+            tn.scan(m, {m.params()[0]: {tag}} if m.params() else {})
+        me = (r.params() or ['self'])[0]
+        read, wide = _self_reads(repo, r, me)
+        bad = sorted(a for a in read if _secretish(a))
+        rep.check('R18.e', fkey(r, 'attributes shown'), not bad, '%s.%s (%s) reads %s' % (c.name, r.name, why, sorted(read)) if not bad else
+                  '%s.%s (%s) reads %s: key material would be shown on the meta page' % (c.name, r.name, why, bad), r.mod, r.node)
+
+    for c in fams.classes:
+        for nm in TEXT_METHODS:
+            r = c.methods.get(nm)
+            if r is not None and r.params():
+                n_text += 1
+                judge(c, r, 'printed wherever an instance is printed')
+        gen = _generated_repr_fields(c)
+        if gen is not None and '__repr__' not in c.methods:
+            n_text += 1
+            _, derived = fams.fields(c)
+            bad = [(f, st) for f, st in gen if _resourceish(f) or _secretish(f) or f in derived]
+            rep.check('R18.e', '%s::generated repr' % c.key, not bad, 'the generated repr of %s prints the fields %s' % (c.name, [f for f, _ in gen]) if not bad else
+                      'the generated repr of %s prints the field(s) %s (every field without repr=False is printed): resource values / key '
+                      'material would be shown wherever an instance is printed' % (c.name, [f for f, _ in bad]), c.mod, bad[0][1] if bad else c.node)
+    if n_text < 6:
+        raise AnalysisError('only %d textual representations (__repr__ / __str__ / generated) found in the tree (floor 6)' % n_text)
+    # the views: methods they call on an application / route / middleware object, and wide reads of such an object
+    ctx = _context_functions(repo, meta)
+    objs = _object_names(repo, ctx)
+    from ..callgraph import CallGraph
+    from ..loader import FuncInfo
+    cg = CallGraph(repo)
+    n_calls = 0
+    for fi in ctx:
+        names = objs[fi.key] - {'self'}
+        for e in cg.callees(fi):
+            if isinstance(e.callee, FuncInfo) and e.kind in ('role', 'cha') and isinstance(e.node.func, ast.Attribute) and \
+                    _root_name(e.node.func.value) in names and not e.callee.mod.external:
+                c = _class_of(e.callee)
+                if c is not None and e.callee.params() and e.callee.name not in TEXT_METHODS:
+                    n_calls += 1
+                    judge(c, e.callee, 'called by %s, the result goes to the page' % fi.qualname)
+        for n in walk_body(fi.node):
+            x, how = None, None
+            if isinstance(n, ast.Attribute) and n.attr == '__dict__' and isinstance(n.value, ast.Name):
+                x, how = n.value.id, '.__dict__'
+            elif isinstance(n, ast.Call) and call_name(n) == 'vars' and len(n.args) == 1 and isinstance(n.args[0], ast.Name) and 'vars' not in _local_names(fi):
+                x, how = n.args[0].id, 'vars()'
+            elif isinstance(n, ast.Call) and call_name(n) == 'getattr' and len(n.args) >= 2 and isinstance(n.args[0], ast.Name) and 'getattr' not in _local_names(fi):
+                cs = tn._const_strings(fi, n.args[1])
+                if not cs or any(_resourceish(a) or _secretish(a) or a == '__dict__' for a in cs):
+                    x, how = n.args[0].id, 'getattr(.., %s)' % short(n.args[1], 30)
+            if x is not None and x in names:
+                rep.fail('R18.e', fkey(fi, n), '%s reads %s of the %s object: the instance dictionary (resources mapping, keys) / an attribute '
+                         'chosen at run time reaches the page' % (fi.qualname, how, x), meta, n)
+    _report_taint(rep, 'R18.e', tn, ' (printed wherever such an object is printed: repr() of an endpoint, a bound method, a resource value, ..)')
+    rep.ok('R18.e', '%s::textual representations' % META, '%d textual representations of classes of the tree and %d methods called by the views on '
+           'application / route / middleware objects judged' % (n_text, n_calls), meta)
+    rep.floor('R18.e', 8)
 
 
 # ------------------------------------------------------------------------------------------ R18.b
@@ -1976,6 +2226,7 @@ def run(rep):
     rep.rule('R18.b', 'attribute reads in get_mw_infos and in middleware __repr__ methods')
     rep.rule('R18.c', 'must-catch around each peripheral call')
     rep.rule('R18.d', 'Dust reference escaping of the meta templates')
+    rep.rule('R18.e', 'taint: no __repr__ / __str__ / generated repr of a class of the tree, no method the views call on a host object, prints resource values / key material / the instance dictionary')
 
     def group(fn):
         def rule_group():
@@ -1989,5 +2240,5 @@ def run(rep):
                 raise AnalysisError('%s: unexpected shape (%s: %s)' % (fn.__name__.strip('_'), type(e).__name__, e))
         rule_group.__name__ = fn.__name__.strip('_')
         return rule_group
-    for fn in (_r18a, _r18b, _r18c, _r18d):
+    for fn in (_r18a, _r18b, _r18c, _r18d, _r18e):
         rep.guard(group(fn))
